@@ -3,11 +3,12 @@ function is reported as 'unavailable' (never an alarm by itself)."""
 import os
 import sys
 
-assert os.environ.get('PYTHONPATH', '').split(':')[0] == '/repo', 'PYTHONPATH must start with /repo'
+_REPO = os.environ.get('VERIF_REPO') or '/repo'
+assert os.environ.get('PYTHONPATH', '').split(':')[0] == _REPO, 'PYTHONPATH must start with ' + _REPO
 import segno  # noqa: E402
 from segno import encoder, utils, consts, writers  # noqa: E402
 
-assert os.path.realpath(segno.__file__).startswith('/repo/'), segno.__file__
+assert os.path.realpath(segno.__file__).startswith(os.path.realpath(_REPO) + '/'), segno.__file__
 
 
 def exn_class(e):
